@@ -269,6 +269,24 @@ func rulesC05Lib(w *World, r *Report) {
 
 	// ---------- R5: header and length are fixed at creation
 	r.Rule("C05.R5", "who-may-call + derives-from: putHeader is called only from Create; Truncate's size and the page buffer's size in Create are the same ExpectedFileSize() value; Whisper.header is stored only in Create and readHeader (called only from Open); Header.TakeFrom receivers are fresh objects", 6)
+	// the handle Sync writes through was opened for writing: every flag the package itself supplies is O_RDWR (a handle
+	// that fell back to read-only makes Flush a no-op the dependency does not report, and Sync succeeds)
+	{
+		acc := osConst(w, "O_RDWR") | osConst(w, "O_WRONLY") | osConst(w, "O_RDONLY")
+		rdwr := osConst(w, "O_RDWR")
+		consts, nArgs := openFlagConsts(w)
+		bad := ""
+		for _, k := range consts {
+			if k&acc != rdwr {
+				bad = fmt.Sprintf("a flag value (%#x) whose access mode is not O_RDWR", k)
+			}
+		}
+		if rdwr == 0 || nArgs == 0 {
+			r.Undecided("C05.R5", "openFileFlag:read-write", "-", "os.O_RDWR or the os.OpenFile call not found")
+		} else {
+			r.Check(bad == "" && len(consts) > 0, "C05.R5", "openFileFlag:read-write", w.pos(create.Pos()), fmt.Sprintf("%d constants reach the flag of os.OpenFile, all with access mode O_RDWR", len(consts)), "os.OpenFile is reached by "+bad+": writes through such a handle are lost while Sync reports success")
+		}
+	}
 	if ph := need(w, r, "C05.R5", w.Lib, "Whisper.putHeader"); ph != nil {
 		n := 0
 		for _, e := range w.callers(ph) {
@@ -307,8 +325,15 @@ func rulesC05Lib(w *World, r *Report) {
 			if cv, ok := sz.(*ssa.Call); ok && cv.Common().IsInvoke() && cv.Common().Method.Name() == "Size" {
 				// receiver must be the FileInfo returned by w.file.Stat()
 				if ex, ok := cv.Common().Value.(*ssa.Extract); ok {
-					if sc, ok := ex.Tuple.(*ssa.Call); ok && isMethodCall(sc, "os", "File", "Stat") && isLoadOfField(callRecv(sc), "Whisper", "file") {
-						okSize = true
+					if sc, ok := ex.Tuple.(*ssa.Call); ok && isMethodCall(sc, "os", "File", "Stat") {
+						// of the handle's file, or of the very file the page buffer is built on
+						fileArg := stripChangeType(originThroughChain(onews[0].call.Common().Args[0], onews[0].chain))
+						if mi, isMI := fileArg.(*ssa.MakeInterface); isMI {
+							fileArg = mi.X
+						}
+						if isLoadOfField(callRecv(sc), "Whisper", "file") || callRecv(sc) == fileArg {
+							okSize = true
+						}
 					}
 				}
 			}
